@@ -48,6 +48,9 @@ type metricSchemaStore struct {
 
 	cache *expirable.LRU[metric.ID, *metric.Schema]
 
+	// switchAgain is set when a flush is prepared while the immutable store of a failed flush is still there
+	switchAgain bool
+
 	lock sync.RWMutex
 }
 
@@ -226,6 +229,10 @@ func (s *metricSchemaStore) PrepareFlush() {
 	if s.immutable == nil || s.immutable.IsEmpty() {
 		s.immutable = s.mutable
 		s.mutable = imap.NewIntMap[*metric.Schema]()
+	} else {
+		// NOTE: immutable store of a failed flush is still there, it is flushed first by the coming flush,
+		// then need switch/flush again, else what was written since then isn't part of the coming flush.
+		s.switchAgain = true
 	}
 }
 
@@ -237,6 +244,25 @@ func (s *metricSchemaStore) needFlush() bool {
 }
 
 func (s *metricSchemaStore) Flush() error {
+	if err := s.flushImmutable(); err != nil {
+		return err
+	}
+	s.lock.Lock()
+	switchAgain := s.switchAgain
+	if switchAgain {
+		s.switchAgain = false
+		s.immutable = s.mutable
+		s.mutable = imap.NewIntMap[*metric.Schema]()
+	}
+	s.lock.Unlock()
+	if switchAgain {
+		return s.flushImmutable()
+	}
+	return nil
+}
+
+// flushImmutable flushes the immutable store.
+func (s *metricSchemaStore) flushImmutable() error {
 	if !s.needFlush() {
 		return nil
 	}
